@@ -80,14 +80,14 @@ structure AllSpec (n : Nat) : Prop where
     s.data.map cellOf = List.replicate k .val ++ tail → (callUser n name k).run s = (.ok (), s') →
     WF s' ∧ TExt s s' ∧ s'.data.map cellOf = .val :: tail ∧ s'.linear = s.linear ∧ s'.addr = s.addr ∧
       s'.curfunc = s.curfunc ∧ s'.pc = s.pc + 1 ∧ s'.suspended = s.suspended
-  builtin : ∀ (name : String) (args : List Val) (s s' : St) (v : Val), WF s → (∀ a ∈ args, vok s.fns.length a = true) →
+  builtin : ∀ (name : String) (args : List Val) (s s' : St) (v : Val), WF s → s.pc = -1 → (∀ a ∈ args, vok s.fns.length a = true) →
     (builtin n name args).run s = (.ok v, s') → Kept s s' ∧ vok s'.fns.length v = true
-  apply : ∀ (f : Val) (args : List Val) (s s' : St) (v : Val), WF s → vok s.fns.length f = true →
+  apply : ∀ (f : Val) (args : List Val) (s s' : St) (v : Val), WF s → s.pc = -1 → vok s.fns.length f = true →
     (∀ a ∈ args, vok s.fns.length a = true) →
     (applyFn n f args).run s = (.ok v, s') → Kept s s' ∧ vok s'.fns.length v = true
-  mapArr : ∀ (f : Val) (r i k : Nat) (s s' : St) (vs : List Val), WF s → vok s.fns.length f = true →
+  mapArr : ∀ (f : Val) (r i k : Nat) (s s' : St) (vs : List Val), WF s → s.pc = -1 → vok s.fns.length f = true →
     (mapArr n f r i k).run s = (.ok vs, s') → Kept s s' ∧ ∀ v ∈ vs, vok s'.fns.length v = true
-  mapList : ∀ (f l : Val) (s s' : St) (v : Val), WF s → vok s.fns.length f = true → vok s.fns.length l = true →
+  mapList : ∀ (f l : Val) (s s' : St) (v : Val), WF s → s.pc = -1 → vok s.fns.length f = true → vok s.fns.length l = true →
     (mapList n f l).run s = (.ok v, s') → Kept s s' ∧ vok s'.fns.length v = true
   force : ∀ (id : Nat) (s s' : St) (v : Val), WF s → (forceLazy n id).run s = (.ok v, s') →
     Kept s s' ∧ vok s'.fns.length v = true
